@@ -3,7 +3,6 @@ C08 — macros play exactly their key list, in order, and always end with keys r
 Property theorems only; helper lemmas are in Lemmas/Macro*.lean.
 -/
 import KVerif.Lemmas.MacroTick
-import KVerif.Lemmas.MacroFix
 import KVerif.Gen.MacroConsts
 namespace KVerif.C08
 open KVerif.L KVerif.Macro
@@ -284,60 +283,55 @@ def runL : Layout → List In → Except Crash Layout
     | .error c => .error c
     | .ok (s', _) => runL s' r
 
-/-- the bounds of the statement, along the run: fewer than 32 events pending whenever one arrives,
-and **at most 4 macros concurrently active** — whenever a key press is processed, the ring of 4 has
-room for the sequences the key's action starts (one for each of kanata's macro actions) on top of
-those still playing -/
-def Within : Layout → List In → Prop
-  | _, [] => True
-  | s, .ev e :: r => s.queue.length < QUEUE_SIZE ∧ ∀ s', s.event e = .ok s' → Within s' r
-  | s, .tick :: r =>
-    (∀ q rest c, s.queue = q :: rest → q.ev = .press c → RoomFor (tickPre s) c) ∧
-    ∀ s' cu, tick s = .ok (s', cu) → Within s' r
-
-/-- **macro_ends_released_partial** (partial: at most 4 macros concurrently active).
-Full statement (false of the code, see `macro_ring_eviction_strands_key_counterexample`): for every
-configuration of plain keys and macros and every history, whenever no macro is playing no key
-pressed by a macro is down.
+/-- **macro_ends_released_partial** (partial: the configuration fragment below; no bound on the
+history any more).
+Full statement: for every configuration and every history, whenever no macro is playing no key
+pressed by a macro is down.  It was false of the pinned code (a 5th concurrently active macro evicted
+the oldest from the ring of 4 and stranded its keys: `macro_ring_eviction_strands_key_counterexample`);
+since the `fix:` commit that introduced `start_sequence` an evicted sequence's outstanding releases
+are performed at the eviction, and the hypothesis "at most 4 macros concurrently active" is gone.
 Proved: for every configuration built from plain keys, no-op and transparent keys, custom actions,
 `CancelSequences` and the macro actions (a `Sequence` / `RepeatableSequence` whose events are the
 parser's, alone or inside a `multi` with a custom action — what the eight macro list actions
-compile to), started quiet, and every history of presses, releases and ticks — any order and timing,
-macros activated once, repeatedly, overlapping each other and plain keys, sharing keys and modifiers —
-that stays `Within` the bounds (fewer than 32 events pending; room in the ring of 4 whenever a macro
-starts): after the whole history (hence after every prefix of it) every `FakeKey` in `states` is
-owed a `Release` by a sequence that is still active, every active sequence is a suffix of what the
-parser emitted, and therefore **whenever no sequence is active, no `FakeKey` is left**.
-Missing for the full statement: a 5th concurrently active macro (the ring evicts the oldest). -/
+compile to, `compiled_in_fragment`), started quiet, and EVERY history of presses, releases and ticks
+that the layout processes — any order and timing, physically consistent or not, macros activated
+once, repeatedly, overlapping each other and plain keys, sharing keys and modifiers, any number of
+them concurrently (also more than 4), any number of events pending (also bursts beyond the queue of
+32): after the whole history (hence after every prefix of it) every `FakeKey` in `states` is owed a
+`Release` by a sequence that is still active, every active sequence is a suffix of what the parser
+emitted, and therefore **whenever no sequence is active, no `FakeKey` is left**.
+Hypotheses that remain: `CfgM` (the configuration fragment), `Quiet` and `SeqInv` of the start
+state (true of a fresh layout, `init_ok`), and that the run returns a state (`runL … = .ok`; on this
+fragment the model has no crash outcome other than the index checks of `resolve_coord`).
+Missing for the full statement: macros next to tap-hold, one-shot, tap-dance, chord, layer, fork and
+switch actions, and sequences containing `Tap` events (never emitted by kanata's parser). -/
 theorem macro_ends_released_partial : ∀ (ins : List In) (s : Layout), CfgM s.cfg → Quiet s → SeqInv s →
-    Within s ins → ∀ s', runL s ins = .ok s' →
+    ∀ s', runL s ins = .ok s' →
       SeqInv s' ∧ Quiet s' ∧ (s'.activeSequences = [] → ∀ k, St.fakeKey k ∉ s'.states) := by
   intro ins
   induction ins with
   | nil =>
-    intro s _ hq hi _ s' h
+    intro s _ hq hi s' h
     simp only [runL] at h
     injection h with h; subst h
     exact ⟨hi, hq, hi.released⟩
   | cons i rest ih =>
-    intro s hc hq hi hw s' h
+    intro s hc hq hi s' h
     cases i with
     | ev e =>
-      simp only [Within] at hw
       simp only [runL] at h
       split at h
       · cases h
       · rename_i s1 he
-        obtain ⟨e1, e2, e3⟩ := event_inv hq hi e hw.1 s1 he
-        exact ih s1 (e3 ▸ hc) e1 e2 (hw.2 s1 he) s' h
+        obtain ⟨e1, e2, e3⟩ := event_inv hc hq hi e s1 he
+        exact ih s1 (e3 ▸ hc) e1 e2 s' h
     | tick =>
-      simp only [Within] at hw
       simp only [runL] at h
       split at h
       · cases h
       · rename_i s1 cu ht
-        obtain ⟨t1, t2, t3⟩ := tick_inv hc hq hi hw.1 s1 cu ht
-        exact ih s1 (t3 ▸ hc) t1 t2 (hw.2 s1 cu ht) s' h
+        obtain ⟨t1, t2, t3⟩ := tick_inv hc hq hi s1 cu ht
+        exact ih s1 (t3 ▸ hc) t1 t2 s' h
 
 /-- inputs of a run of the Kanata-level model -/
 inductive KIn
@@ -361,55 +355,45 @@ def runK (tbl : Nat → List CAct) : KState → List KIn → Except Crash KState
     | .error e => .error e
     | .ok (k', _) => runK tbl k' r
 
-def KWithin (tbl : Nat → List CAct) : KState → List KIn → Prop
-  | _, [] => True
-  | k, .press c :: r => k.prePress.lay.queue.length < QUEUE_SIZE ∧ ∀ k', k.press c = .ok k' → KWithin tbl k' r
-  | k, .release c :: r => k.lay.queue.length < QUEUE_SIZE ∧ ∀ k', k.release c = .ok k' → KWithin tbl k' r
-  | k, .tick :: r =>
-    (∀ q rest c, k.lay.queue = q :: rest → q.ev = .press c → RoomFor (tickPre k.lay) c) ∧
-    ∀ k' keys, k.tick tbl = .ok (k', keys) → KWithin tbl k' r
-
-/-- **macro_ends_released_kanata_partial** (partial, same bound).  The same with the cancellation
-glue of src/kanata/mod.rs in the loop (release-cancel, cancel-on-press and their combination,
-whatever custom action table `tbl` the configuration has): whatever is cancelled when, whenever
-no sequence is active no `FakeKey` is left. -/
+/-- **macro_ends_released_kanata_partial** (partial: the same configuration fragment; no bound on
+the history).  The same with the cancellation glue of src/kanata/mod.rs in the loop (release-cancel,
+cancel-on-press and their combination, whatever custom action table `tbl` the configuration has):
+whatever is cancelled when, however many macros run at once, whenever no sequence is active no
+`FakeKey` is left. -/
 theorem macro_ends_released_kanata_partial (tbl : Nat → List CAct) : ∀ (ins : List KIn) (k : KState),
-    CfgM k.lay.cfg → KInv k → KWithin tbl k ins → ∀ k', runK tbl k ins = .ok k' →
+    CfgM k.lay.cfg → KInv k → ∀ k', runK tbl k ins = .ok k' →
       KInv k' ∧ (k'.lay.activeSequences = [] → ∀ key, St.fakeKey key ∉ k'.lay.states) := by
   intro ins
   induction ins with
   | nil =>
-    intro k _ hi _ k' h
+    intro k _ hi k' h
     simp only [runK] at h
     injection h with h; subst h
     exact ⟨hi, hi.inv.released⟩
   | cons i rest ih =>
-    intro k hc hi hw k' h
+    intro k hc hi k' h
     cases i with
     | press c =>
-      simp only [KWithin] at hw
       simp only [runK] at h
       split at h
       · cases h
       · rename_i k1 he
-        obtain ⟨e1, e2⟩ := kpress_inv hi c hw.1 k1 he
-        exact ih k1 (e2 ▸ hc) e1 (hw.2 k1 he) k' h
+        obtain ⟨e1, e2⟩ := kpress_inv hc hi c k1 he
+        exact ih k1 (e2 ▸ hc) e1 k' h
     | release c =>
-      simp only [KWithin] at hw
       simp only [runK] at h
       split at h
       · cases h
       · rename_i k1 he
-        obtain ⟨e1, e2⟩ := krelease_inv hi c hw.1 k1 he
-        exact ih k1 (e2 ▸ hc) e1 (hw.2 k1 he) k' h
+        obtain ⟨e1, e2⟩ := krelease_inv hc hi c k1 he
+        exact ih k1 (e2 ▸ hc) e1 k' h
     | tick =>
-      simp only [KWithin] at hw
       simp only [runK] at h
       split at h
       · cases h
       · rename_i k1 keys ht
-        obtain ⟨t1, t2⟩ := ktick_inv tbl hc hi hw.1 k1 keys ht
-        exact ih k1 (t2 ▸ hc) t1 (hw.2 k1 keys ht) k' h
+        obtain ⟨t1, t2⟩ := ktick_inv tbl hc hi k1 keys ht
+        exact ih k1 (t2 ▸ hc) t1 k' h
 
 /-- a freshly created layout is quiet and satisfies the invariant (the theorems apply from start-up) -/
 theorem init_ok (cfg : LCfg) (tv2 dfl qth : Bool) (osd : Nat) :
@@ -437,57 +421,55 @@ theorem compiled_in_fragment (form : Form) (rep : Bool) (params : List Item) (c 
 /-- the macro `mod-(…6 ms…)`: press a modifier, wait, release it -/
 def ringMacro (m : KeyCode) : List SeqEv := [.press m, .delay 6, .release m, .complete]
 
-/-- what `do_action` does for a macro key -/
+/-- what `do_action` did for a macro key at the pinned commit (before `start_sequence`) -/
+def ringStartPinned (s : Layout) (m : KeyCode) : Layout :=
+  armSequencePinned s (.sequence (ringMacro m)) (ringMacro m) (0, m) false false
+
+/-- what `do_action` does for a macro key now -/
 def ringStart (s : Layout) (m : KeyCode) : Layout :=
   armSequence s (.sequence (ringMacro m)) (ringMacro m) (0, m) false false
 
 /-- five macros started one tick apart (LShift, LCtrl, LAlt, LGui, RAlt held over a 6 ms delay),
 then 12 more ticks -/
-def ringWitness : Layout :=
+def ringRun (start : Layout → KeyCode → Layout) : Layout :=
   let s : Layout := { cfg := { layers := [], srcKeys := [] } }
-  let s := processSequences (ringStart s 42)
-  let s := processSequences (ringStart s 29)
-  let s := processSequences (ringStart s 56)
-  let s := processSequences (ringStart s 125)
-  let s := processSequences (ringStart s 100)
+  let s := processSequences (start s 42)
+  let s := processSequences (start s 29)
+  let s := processSequences (start s 56)
+  let s := processSequences (start s 125)
+  let s := processSequences (start s 100)
   runSeq 12 s
 
-/-- **macro_ring_eviction_strands_key_counterexample**.  `active_sequences` is a ring of 4 that
-drops its oldest element when a 5th is pushed (`pushBackWrap`).  Five well-formed macros (each
-presses a modifier, waits 6 ms and releases it — `EvsOK`, so `macro_ends_released` applies to each
-alone) started on consecutive ticks: starting the fifth evicts the first while it still holds
-LShift; when all sequences have ended, `FakeKey LShift` is still in `states` and nothing is left
-that would ever release it.  The invariant of `macro_ends_released_partial` is false here; its
-hypothesis `Within` fails at the fifth start.  Reproduced on the real keyberon `Layout` and on a
-whole `Kanata` by the harness (families conc5 / conc6, DESIGN §7 row 8). -/
+/-- **macro_ring_eviction_strands_key_counterexample** (about the pinned code, `armSequencePinned`).
+`active_sequences` is a ring of 4 that drops its oldest element when a 5th is pushed
+(`pushBackWrap`).  Five well-formed macros (each presses a modifier, waits 6 ms and releases it —
+`EvsOK`, so `macro_ends_released` applies to each alone) started on consecutive ticks: starting the
+fifth evicted the first while it still held LShift; when all sequences had ended, `FakeKey LShift`
+was still in `states` and nothing was left that would ever release it — the invariant of
+`macro_ends_released_partial` is false of that state.  Reproduced on the real keyberon `Layout` and on
+a whole `Kanata` at the pinned commit (DESIGN §7 row 8); repaired by the `fix:` commit that
+introduced `start_sequence` (KNOWN_FINDINGS: fixed). -/
 theorem macro_ring_eviction_strands_key_counterexample :
     (∀ m, EvsOK (ringMacro m)) ∧
-    ringWitness.activeSequences = [] ∧ St.fakeKey 42 ∈ ringWitness.states ∧
-    ¬ SeqInv ringWitness := by
+    (ringRun ringStartPinned).activeSequences = [] ∧ St.fakeKey 42 ∈ (ringRun ringStartPinned).states ∧
+    ¬ SeqInv (ringRun ringStartPinned) := by
   refine ⟨fun m => ⟨[.press m, .delay 6, .release m], rfl, by simp [isStep], by simp [closedB]⟩,
     by decide, by decide, ?_⟩
   intro h
   exact h.released (by decide) 42 (by decide)
 
-/-- **ring_fix_restores_invariant** (about the patch proposed in fix.diff, not about the code that
-exists).  If starting a sequence releases, at the moment the full ring evicts its oldest sequence,
-every key that sequence would still have released (`armSequenceFixed`, the model of
-`start_sequence` of the patch), then starting a macro keeps the invariant whether or not the ring has
-room — so `macro_ends_released_partial` would hold without its bound on concurrently active macros,
-and the witness above ends with no key down. -/
-theorem ring_fix_restores_invariant :
+/-- **ring_eviction_releases_owed_keys** (full; the code as it now is).  Starting a macro keeps the
+invariant whether or not the ring of 4 has room: when the push evicts the oldest sequence,
+`start_sequence` performs, at that moment, every release the evicted sequence still owed (and the
+release of a pending tap), so no `FakeKey` is left without an active sequence that will release it.
+On the witness of the counterexample the same five macros now end with nothing held.  What remains
+of the ring's capacity: the evicted macro is cut short — its remaining presses are never played —
+which `macro_projection_partial` excludes by its bound of 4. -/
+theorem ring_eviction_releases_owed_keys :
     (∀ (s : Layout) (a : Action) (evs : List SeqEv) (c : Coord) (o rep : Bool), SeqInv s → EvsOK evs →
-      SeqInv (armSequenceFixed s a evs c o rep)) ∧
-    (let start := fun (s : Layout) (m : KeyCode) =>
-        armSequenceFixed s (.sequence (ringMacro m)) (ringMacro m) (0, m) false false
-     let s : Layout := { cfg := { layers := [], srcKeys := [] } }
-     let s := processSequences (start s 42)
-     let s := processSequences (start s 29)
-     let s := processSequences (start s 56)
-     let s := processSequences (start s 125)
-     let s := processSequences (start s 100)
-     (runSeq 12 s).activeSequences = [] ∧ (runSeq 12 s).states = []) :=
-  ⟨armSequenceFixed_inv, by decide⟩
+      SeqInv (armSequence s a evs c o rep)) ∧
+    (ringRun ringStart).activeSequences = [] ∧ (ringRun ringStart).states = [] :=
+  ⟨fun s a evs c o rep h hev => (armSequence_inv s a evs c o rep h hev).1, by decide, by decide⟩
 
 /-! ## The cancel-on-press window -/
 
@@ -582,8 +564,8 @@ example : CfgM sampleCfg := by
     simp only [sampleCfg, List.mem_cons, List.mem_nil_iff, or_false] at he
     rcases he with rfl | rfl | rfl | rfl <;> simp [MFrag]
 
-/-- `Within` is met by the empty history and by a history of one event from start-up -/
-example : Within { cfg := sampleCfg } [] ∧ (({ cfg := sampleCfg } : Layout).queue.length < QUEUE_SIZE) :=
-  ⟨trivial, by decide⟩
+/-- the hypotheses of `macro_ends_released_partial` hold of the freshly created layout of this configuration -/
+example : Quiet { cfg := sampleCfg } ∧ SeqInv { cfg := sampleCfg } :=
+  ⟨⟨rfl, rfl, rfl, rfl, rfl⟩, ⟨fun _ h => (by cases h), fun _ h => (by cases h), fun _ _ h => (by cases h), Nat.zero_le _⟩⟩
 
 end KVerif.C08
